@@ -50,7 +50,7 @@ func checkC16(rep *core.Report) {
 	rep.Trust("(*net.UDPConn).ReadFromUDP returns a non-nil source address together with a nil error; the queued message types take their address only from that result on the nil-error path (checked: oblrun.go sourceAddrFields)")
 	prog := rep.Prog
 	r1 := rep.Rule("R16.1", "no panic-capable instruction on the mirror path can fail", 55)
-	r2 := rep.Rule("R16.2", "mirror buffers: own copy, released once after last use, with the pool's size", 4)
+	r2 := rep.Rule("R16.2", "mirror buffers: own copy from the protocol's own pool, released once after last use, with the pool's size", 8)
 	r3 := rep.Rule("R16.3", "rewritten header fields come from the right quantities at the right offsets", 24)
 	r4 := rep.Rule("R16.4", "the mirror branch of the worker only copies and queues", 2)
 	loops, disps := mirrorLoops(prog)
@@ -91,6 +91,7 @@ func checkC16(rep *core.Report) {
 			checkReleaseDiscipline(prog, r2, r2, fn, recv, recv)
 		}
 	}
+	checkPoolPerPipeline(prog, r2)
 	// ---- R16.3 ----
 	for _, fn := range loops {
 		checkMirrorHeaderWrites(prog, r3, fn)
